@@ -280,6 +280,35 @@ pub fn run_workload(prop: &str, sub: u64, acc: &mut Acc, ctx: &Ctx, thorough: bo
             }
         }
     }
+    // The accounting that travels with the results: JSON messages (line numbers, offsets, spans,
+    // per-file and total statistics) and the --stats trailer, via reads and via a memory map.
+    if prop == "C03" && !w.vimgrep && rng.chance(1, 2) {
+        let base: Vec<String> = fl.iter().filter(|f| !matches!(f.as_str(), "-b" | "--column" | "--trim" | "--vimgrep" | "-N")).cloned().collect();
+        for map in ["--no-mmap", "--mmap"] {
+            let jargs: Vec<String> = base.iter().cloned().chain(["--json".to_string(), map.to_string(), "w/doc.txt".to_string()]).collect();
+            let sargs: Vec<String> = fl.iter().cloned().chain(["--stats".to_string(), map.to_string(), "w/doc.txt".to_string()]).collect();
+            let plan = if map == "--no-mmap" { vec![format!("read_frag={}", 1 + rng.below(200))] } else { vec!["noop=1".into()] };
+            let jspec = RunSpec { args: jargs, plan: plan.clone(), ..RunSpec::default() };
+            let sspec = RunSpec { args: sargs, plan, ..RunSpec::default() };
+            let j = ctx.run(&scratch, &jspec, 60);
+            let st = ctx.run(&scratch, &sspec, 60);
+            acc.evals += 2;
+            acc.faults.inc("route:accounting");
+            digest = digest_out(digest_out(digest, &RunOut { stdout: mask_times(&j.stdout), ..j.clone() }), &RunOut { stdout: mask_times(&st.stdout), ..st.clone() });
+            // (under --crlf the per-match printing path that --stats switches on re-terminates
+            // every line with CR LF: presentation; there only the trailer's counts are judged)
+            let results = strip_stats(&st.stdout);
+            let rendered = model_output(&w);
+            let verdict = if !w.crlf && results != rendered {
+                Err(format!("with --stats the results before the trailer differ from the model's rendering ({} vs {} bytes)", results.len(), rendered.len()))
+            } else {
+                accounting(&w, &j.stdout, &st.stdout[results.len()..], if w.crlf { None } else { Some(rendered.len() as u64) })
+            };
+            if let Err(e) = verdict {
+                acc.violation("C03", &format!("accounting-differs-from-model:{}", map.trim_start_matches("--")), format!("rg {:?}: {e}", fl), sub, json!({"engine": "procsim", "kind": "c03", "subseed_workload": sub, "route": format!("accounting{map}"), "run": spec_json(&jspec), "stats_run": spec_json(&sspec), "input": show(&w.text), "json_output": show(&j.stdout), "stats_output": show(&st.stdout)}));
+            }
+        }
+    }
     // Two files searched one after the other by the same searcher, half of the time with -U
     // and a pattern that can match a line terminator (it selects the same lines as foo): the
     // whole-file multi-line buffer is reused from file to file. With and without the stat of
@@ -449,4 +478,169 @@ pub fn replay(prop: &str, v: &Value) -> Vec<Violation> {
     let mut acc = Acc::new();
     run_workload(prop, v["subseed_workload"].as_u64().unwrap_or(1), &mut acc, &ctx, true);
     acc.violations
+}
+
+
+/// The grep model as a list of (is_selected_line, line index): what `model_output` renders.
+pub fn model_events(w: &W) -> Vec<(bool, usize)> {
+    let lines_v: Vec<&[u8]> = w.text.split_inclusive(|&c| c == b'\n').collect();
+    let sel: Vec<bool> = lines_v.iter().map(|l| l.windows(3).any(|x| x == b"foo") != w.invert).collect();
+    let (a, b) = if w.passthru { (0, 0) } else { (w.a, w.b) };
+    let mut evs = vec![];
+    let mut last_sel: Option<usize> = None;
+    for i in 0..lines_v.len() {
+        if sel[i] {
+            evs.push((true, i));
+        } else if last_sel.map_or(false, |j| i - j <= a) || w.passthru || ((1..=b).any(|d| i + d < sel.len() && sel[i + d]) && !(w.stop_nm && last_sel.is_some())) {
+            evs.push((false, i));
+        }
+        if sel[i] {
+            last_sel = Some(i);
+        } else if w.stop_nm && last_sel.is_some() {
+            break;
+        }
+    }
+    evs
+}
+
+fn foo_spans(l: &[u8]) -> Vec<(usize, usize)> {
+    let mut v = vec![];
+    let mut at = 0;
+    while at + 3 <= l.len() {
+        if &l[at..at + 3] == b"foo" {
+            v.push((at, at + 3));
+            at += 3;
+        } else {
+            at += 1;
+        }
+    }
+    v
+}
+
+fn b64(s: &str) -> Vec<u8> {
+    let val = |c: u8| -> u32 {
+        match c {
+            b'A'..=b'Z' => (c - b'A') as u32,
+            b'a'..=b'z' => (c - b'a' + 26) as u32,
+            b'0'..=b'9' => (c - b'0' + 52) as u32,
+            b'+' => 62,
+            _ => 63,
+        }
+    };
+    let bytes: Vec<u8> = s.bytes().filter(|&c| c != b'=').collect();
+    let mut out = vec![];
+    for ch in bytes.chunks(4) {
+        let mut acc = 0u32;
+        for (i, &c) in ch.iter().enumerate() {
+            acc |= val(c) << (18 - 6 * i);
+        }
+        let n = ch.len() * 6 / 8;
+        for i in 0..n {
+            out.push((acc >> (16 - 8 * i)) as u8);
+        }
+    }
+    out
+}
+
+fn data_bytes(v: &Value) -> Vec<u8> {
+    if let Some(t) = v["text"].as_str() {
+        t.as_bytes().to_vec()
+    } else {
+        b64(v["bytes"].as_str().unwrap_or(""))
+    }
+}
+
+/// The accounting that travels with the results (JSON messages and the --stats trailer), judged
+/// against the model: line numbers, absolute offsets, submatch spans, per-file and total counts,
+/// bytes printed and bytes searched.
+fn accounting(w: &W, json_out: &[u8], trailer: &[u8], rendered_len: Option<u64>) -> Result<(), String> {
+    let lines_v: Vec<&[u8]> = w.text.split_inclusive(|&c| c == b'\n').collect();
+    let mut starts = vec![];
+    let mut off = 0;
+    for l in &lines_v {
+        starts.push(off);
+        off += l.len();
+    }
+    let evs = model_events(w);
+    let n_sel = evs.iter().filter(|e| e.0).count() as u64;
+    let n_sub: u64 = evs.iter().filter(|e| e.0).map(|e| foo_spans(lines_v[e.1]).len() as u64).sum();
+    let stopped_early = w.stop_nm && evs.last().map_or(false, |e| e.1 + 1 < lines_v.len());
+    // ---- JSON ----
+    let msgs: Vec<Value> = json_out.split(|&b| b == b'\n').filter(|l| !l.is_empty()).map(|l| serde_json::from_slice(l).map_err(|e| format!("unparsable JSON message {:?}: {e}", show(l)))).collect::<Result<_, _>>()?;
+    let types: Vec<&str> = msgs.iter().map(|m| m["type"].as_str().unwrap_or("?")).collect();
+    if evs.is_empty() {
+        if types != ["summary"] {
+            return Err(format!("no line to report, yet the messages are {types:?}"));
+        }
+    } else {
+        if types.first() != Some(&"begin") || types.len() < 3 || types[types.len() - 2] != "end" || types[types.len() - 1] != "summary" {
+            return Err(format!("message frame is not begin .. end summary: {types:?}"));
+        }
+        let body = &msgs[1..msgs.len() - 2];
+        if body.len() != evs.len() {
+            return Err(format!("{} match/context messages, the model has {} lines", body.len(), evs.len()));
+        }
+        let mut printed_bytes = 0u64;
+        for l in json_out.split_inclusive(|&b| b == b'\n').take(msgs.len() - 2) {
+            printed_bytes += l.len() as u64;
+        }
+        for (m, &(is_sel, i)) in body.iter().zip(&evs) {
+            let want_type = if is_sel { "match" } else { "context" };
+            let d = &m["data"];
+            if m["type"] != want_type || d["line_number"].as_u64() != Some(i as u64 + 1) || d["absolute_offset"].as_u64() != Some(starts[i] as u64) || data_bytes(&d["lines"]) != lines_v[i] {
+                return Err(format!("message for line {} is {} line_number={} absolute_offset={} text {:?}; the model has a {want_type} at offset {} with text {:?}", i + 1, m["type"], d["line_number"], d["absolute_offset"], show(&data_bytes(&d["lines"])), starts[i], show(lines_v[i])));
+            }
+            // the spans of the pattern: on selected lines, and with -v on the other ones
+            let want_spans = if is_sel != w.invert { foo_spans(lines_v[i]) } else { vec![] };
+            let got_spans: Vec<(usize, usize)> = d["submatches"].as_array().map(|a| a.iter().map(|x| (x["start"].as_u64().unwrap_or(9999) as usize, x["end"].as_u64().unwrap_or(9999) as usize)).collect()).unwrap_or_default();
+            if got_spans != want_spans || d["submatches"].as_array().map_or(false, |a| a.iter().any(|x| data_bytes(&x["match"]) != b"foo")) {
+                return Err(format!("submatches of line {}: {got_spans:?}, the model has {want_spans:?}", i + 1));
+            }
+        }
+        let end = &msgs[msgs.len() - 2]["data"];
+        let st = &end["stats"];
+        if st["matched_lines"].as_u64() != Some(n_sel) || (!w.invert && st["matches"].as_u64() != Some(n_sub)) || !end["binary_offset"].is_null() || st["searches"].as_u64() != Some(1) || st["searches_with_match"].as_u64() != Some((n_sel > 0) as u64) {
+            return Err(format!("end message says {st} binary_offset={}; the model has {n_sel} selected lines with {n_sub} matches", end["binary_offset"]));
+        }
+        if st["bytes_printed"].as_u64() != Some(printed_bytes) {
+            return Err(format!("end message says bytes_printed={}, the messages of this file before it take {printed_bytes} bytes", st["bytes_printed"]));
+        }
+        if !stopped_early && st["bytes_searched"].as_u64() != Some(w.text.len() as u64) {
+            return Err(format!("end message says bytes_searched={}, the file has {} bytes and the search was not cut short", st["bytes_searched"], w.text.len()));
+        }
+        if stopped_early && st["bytes_searched"].as_u64().map_or(true, |b| b > w.text.len() as u64 || (b as usize) < starts[evs.last().unwrap().1]) {
+            return Err(format!("end message says bytes_searched={} for a search that stopped in line {} of a {} byte file", st["bytes_searched"], evs.last().unwrap().1 + 1, w.text.len()));
+        }
+    }
+    let sm = &msgs[msgs.len() - 1]["data"]["stats"];
+    // (a file of which no line is reported prints no begin/end pair and the JSON printer then leaves
+    // it out of its totals altogether - searches 0, bytes searched 0 - while the --stats trailer
+    // counts it: the searcher did report the length; how the JSON printer sums up is not part of
+    // the listed property, so only the trailer is judged there)
+    if !evs.is_empty() && (sm["searches"].as_u64() != Some(1) || sm["searches_with_match"].as_u64() != Some((n_sel > 0) as u64) || sm["matched_lines"].as_u64() != Some(n_sel) || (!w.invert && sm["matches"].as_u64() != Some(n_sub)) || (!stopped_early && sm["bytes_searched"].as_u64() != Some(w.text.len() as u64))) {
+        return Err(format!("summary says {sm}; the model has one search, {n_sel} selected lines, {n_sub} matches, {} bytes", w.text.len()));
+    }
+    if !evs.is_empty() && sm["bytes_printed"] != msgs[msgs.len() - 2]["data"]["stats"]["bytes_printed"] {
+        return Err(format!("summary bytes_printed {} differs from the only file's {}", sm["bytes_printed"], msgs[msgs.len() - 2]["data"]["stats"]["bytes_printed"]));
+    }
+    // ---- --stats trailer ----
+    let trailer = String::from_utf8_lossy(trailer).to_string();
+    let num = |suffix: &str| -> Option<u64> { trailer.lines().find(|l| l.ends_with(suffix)).and_then(|l| l[..l.len() - suffix.len()].trim().parse().ok()) };
+    let want: [(&str, Option<u64>); 6] = [
+        (" matches", if w.invert { num(" matches") } else { Some(n_sub) }),
+        (" matched lines", Some(n_sel)),
+        (" files contained matches", Some((n_sel > 0) as u64)),
+        (" files searched", Some(1)),
+        (" bytes printed", rendered_len.or(num(" bytes printed"))),
+        (" bytes searched", if stopped_early { num(" bytes searched") } else { Some(w.text.len() as u64) }),
+    ];
+    for (suffix, v) in want {
+        if num(suffix) != v || v.is_none() {
+            return Err(format!("--stats trailer says {:?}{suffix}, expected {:?}; trailer: {:?}", num(suffix), v, trailer));
+        }
+    }
+    if !trailer.starts_with('\n') {
+        return Err(format!("--stats trailer does not start with an empty line: {trailer:?}"));
+    }
+    Ok(())
 }
